@@ -103,9 +103,87 @@ fn accessor_clauses(w: u32) -> Result<(), String> {
     Ok(())
 }
 
+const EXACT_COUNTS: [u64; 6] = [255, 256, 257, 65_535, 65_536, 65_537];
+/// codes of the quick exact-count children: 6 counts x 32 bit positions x plus/minus
+const EXACT_CODES: usize = 6 * 32 * 2;
+
+fn filter_is_right(w: u32) -> Result<(), String> {
+    let want = if card::is_card(w) { w } else { 0 };
+    let got = ckc_rs::CardNumber::filter(w);
+    let got2 = <u32 as ckc_rs::PokerCard>::filter(w);
+    if got != want || got2 != want {
+        return Err(format!("CardNumber::filter({}) = {}, PokerCard::filter = {}, expected {}", hex(w), hex(got), hex(got2), hex(want)));
+    }
+    Ok(())
+}
+
+/// Exact-count histories, one fresh process per code: every card is filtered exactly c times as the first
+/// thing that is ever done with it, then the word card +- 2^k is filtered (a use counter packed next to a
+/// remembered word that carries into, or borrows from, it). Codes from EXACT_CODES on (thorough): one card
+/// filtered 2^32 + 64 times, the neighbouring words looked at before each of the last 128 uses.
+fn exact_count_family(code: usize) -> (u64, Option<(u32, String)>) {
+    let mut calls = 0u64;
+    if code >= EXACT_CODES {
+        let c = card::DECK[((code - EXACT_CODES) * 7 + 3) % 52];
+        let total = (1u64 << 32) + 64;
+        for n in 0..total {
+            if n + 128 >= total {
+                for p in [c.wrapping_add(1), c.wrapping_sub(1), c.wrapping_add(1 << 8), c.wrapping_sub(1 << 8)] {
+                    if let Err(m) = filter_is_right(p) {
+                        return (n, Some((p, format!("in a fresh process, after {} had been filtered {} times in a row: {}", card::render(c), n, m))));
+                    }
+                }
+            }
+            if ckc_rs::CardNumber::filter(std::hint::black_box(c)) != c {
+                return (n, Some((c, format!("in a fresh process, use number {} of {}: the filter does not return the card", n + 1, card::render(c)))));
+            }
+        }
+        return (total + 4 * 128, None);
+    }
+    let c = EXACT_COUNTS[code % 6];
+    let k = (code / 6) % 32;
+    let minus = code / 192 == 1;
+    for x in card::DECK {
+        let probe = if minus { x.wrapping_sub(1 << k) } else { x.wrapping_add(1 << k) };
+        for _ in 0..c {
+            if ckc_rs::CardNumber::filter(std::hint::black_box(x)) != x {
+                return (calls, Some((x, format!("in a fresh process: filter({}) does not return the card", hex(x)))));
+            }
+        }
+        calls += c + 1;
+        if let Err(m) = filter_is_right(probe) {
+            return (calls, Some((probe, format!("in a fresh process, after {} had been filtered {} times in a row: {}", card::render(x), c, m))));
+        }
+    }
+    (calls, None)
+}
+
 pub fn run(run: &mut Run) -> PResult {
     run.rule = "all 14 x 5 rank/suit enumeration pairs through CKCNumber::create; the 52 named constants, POKER_DECK and Deck::get against the layout formula prime | rank<<8 | suit bit | rank bit; every accessor on the 52 cards and blank; all 2^32 words through CardNumber::filter and <u32 as PokerCard>::filter. Non-trivial = the non-card words within Hamming distance 2 of a card (the near misses) plus the 52 cards and the 18 blank-member pairs; distinct = distinct words / pairs".into();
+    if let Some(code) = run.cold {
+        if (3000..5000).contains(&code) {
+            match exact_count_family(code - 3000) {
+                (calls, None) => println!("FRESHRESULT ok {}", calls),
+                (_, Some((w, m))) => println!("FRESHRESULT fail {}", json!({"word": hex(w), "message": m})),
+            }
+            return Ok(());
+        }
+    }
     super::regress::replay_dir(run, "C10", check_case)?;
+    if !run.is_twin() && run.cold.is_none() {
+        // exact call counts need processes in which nothing has been asked before
+        let mut codes: Vec<usize> = (0..EXACT_CODES).map(|c| 3000 + c).collect();
+        if run.tier == crate::engine::Tier::Thorough {
+            codes.extend((0..8).map(|i| 3000 + EXACT_CODES + i));
+        }
+        let n = codes.len();
+        let (ran, calls, bad) = run.fresh_children(&codes, false);
+        run.generator("exact-count histories, a fresh process each: a card filtered exactly 2^8-1 .. 2^8+1 / 2^16-1 .. 2^16+1 times (thorough: also 2^32-64 .. 2^32+64, eight cards), then the word that is the card +- a power of two", "call-count soak", None, calls, 0, &format!("{} of {} child processes reported; every card x every bit position x plus/minus", ran, n));
+        if let Some((code, v)) = bad {
+            let sig = v["word"].as_str().unwrap_or("").to_string();
+            return run.violation("C10.after_exact_count", &sig, json!({"word": v["word"], "cold_code": code}), v["message"].as_str().unwrap_or(""));
+        }
+    }
     {
         let items: Vec<u32> = card::DECK.iter().copied().chain([0u32]).collect();
         super::common::disturbance_pass(run, &items, &|w| accessor_clauses(*w), &|w| ("C10.accessor".into(), json!({"word": hex(*w)}), card::render(*w)))?;
@@ -206,19 +284,6 @@ pub fn run(run: &mut Run) -> PResult {
         }
     }
     super::common::count_soak(run, "filter and accessors on cards and near-miss words", (1 << 30) + (1 << 16), &soak_step)?;
-    if run.tier == crate::engine::Tier::Thorough {
-        // one card filtered more than 2^32 times by one thread (a per-entry use counter), 8 cards at once
-        super::common::count_soak(run, "the same card filtered 2^32 times", 8 * ((1u64 << 32) + 8), &|n| {
-            let per = (1u64 << 32) + 8 + 1;
-            let c = card::DECK[((n / per) * 5 % 52) as usize];
-            // near the 2^32 mark the neighbours are looked at *before* the card itself is used again
-            let around = n % per >= (1u64 << 32) - 4;
-            if (around && (ckc_rs::CardNumber::filter(c + 1) != 0 || ckc_rs::CardNumber::filter(c - 1) != 0)) || ckc_rs::CardNumber::filter(c) != c {
-                return Err(format!("after {} uses of {}: filter({}) = {}, filter({}) = {}", n % per, card::render(c), hex(c), hex(ckc_rs::CardNumber::filter(c)), hex(c + 1), hex(ckc_rs::CardNumber::filter(c + 1))));
-            }
-            Ok(())
-        })?;
-    }
     // filter over all words
     filter_scan(run, "C10.filter")?;
     let near = hamming2().iter().filter(|w| !card::is_card(**w)).count() as u64;
@@ -231,6 +296,15 @@ pub fn run(run: &mut Run) -> PResult {
 }
 
 pub fn check_case(clause: &str, case: &Value) -> Result<(), String> {
+    if clause == "C10.after_exact_count" {
+        // replayed in a fresh process, like the original
+        let code = case["cold_code"].as_u64().unwrap_or(3000) as usize;
+        let run = Run::new("C10", crate::engine::Tier::Quick, 0);
+        return match run.fresh_children(&[code], false).2 {
+            Some((_, v)) => Err(v["message"].as_str().unwrap_or("").to_string()),
+            None => Ok(()),
+        };
+    }
     if clause.ends_with(".soak") {
         return super::common::replay_soak(case, &soak_step);
     }
